@@ -114,7 +114,7 @@ func init() {
 		rep.Extra["builtin_only_paths"] = unmodelled
 		rep.Extra["advanced_only_paths"] = extraInAdv
 		rep.Extra["single_field_mutations"] = len(muts)
-		rep.Rule = fmt.Sprintf("bounded-exhaustive objects from a reflective generator over k8s.io/api/apps/v1.StatefulSet (depth %d): a populated base object with every reachable path set, one at a time, to each variant (leaf: two typical values and zero; pointer: nil / pointer to zero / populated; slice: nil / empty / 1 / 3 items; map: nil / empty / one entry), all pairs of mutations among the set-level fields (metadata.*, spec.*, status.* first level), and the same on an empty base object; slot sets = all subsets of {MinInt32,-1,0,1,2,MaxInt32}; annotation maps {nil, {}, other keys, pre-existing slots/pause}. Oracles: To(From(x)) semantically equals x with the built-in-only paths (computed by reflection) zeroed, apiVersion apps/v1, no error; list conversion keeps length and order; write/read through the hijack client on a fake keeps every value the input had; Set.Get = id, Add = union, empty removes the key, other annotations untouched, same for pause; D(D(o)) = D(o) and re-submitting a read-back object leaves the template unchanged. Non-trivial = the mutated object differs from the base.", depth)
+		rep.Rule = fmt.Sprintf("bounded-exhaustive objects from a reflective generator over k8s.io/api/apps/v1.StatefulSet (depth %d): a populated base object with every reachable path set, one at a time, to each variant (leaf: two typical values and zero; pointer: nil / pointer to zero / populated; slice: nil / empty / 1 / 3 items; map: nil / empty / one entry), all pairs of mutations among the set-level fields (metadata.*, spec.*, status.* first level), and the same on an empty base object; slot sets = all subsets of {MinInt32,-1,0,1,2,MaxInt32}; annotation maps {nil, {}, other keys, pre-existing slots/pause}. Oracles: To(From(x)) semantically equals x with the built-in-only paths (computed by reflection) zeroed, apiVersion apps/v1, no error; list conversion keeps length and order; write/read through the hijack client on a fake keeps every value the input had; Set.Get = id, Add = union, empty removes the key, other annotations untouched, same for pause; edit histories through the hijack client (create with slots S1/pause P1, read, update to S2/P2 for all S1,S2 subsets of {0,1,2}: the update result, a fresh read and the stored Advanced object all say S2/P2 and an emptied slot set leaves no annotation); D(D(o)) = D(o) and re-submitting a read-back object leaves the template unchanged. Non-trivial = the mutated object differs from the base.", depth)
 		rep.Assumptions = []string{"fields the Advanced API models = JSON paths present in both Go types (computed by reflection over struct tags)", "timestamps are generated at second granularity (the API's own)", "the hijack client is exercised on client-go's stock fake object tracker"}
 		ctx := context.TODO()
 		var n int64
@@ -366,6 +366,69 @@ func init() {
 				}
 				if others(obj.Annotations) != others(am) || obj.Annotations["delete-slots"] != am["delete-slots"] {
 					rep.Violation("C19", "pause-disturbs-annotations", fmt.Sprintf("%s: other annotations changed: %v -> %v", label, am, obj.Annotations), nil)
+				}
+			}
+		}
+		// annotation edits through the hijack client: what the last write said is what every later read says
+		small := gen.Subsets([]int32{0, 1, 2}, 3)
+		for ai, am := range annMaps {
+			for _, s1 := range small {
+				for _, s2 := range small {
+					for pp := 0; pp < 4; pp++ {
+						p1, p2 := pp&1 != 0, pp&2 != 0
+						n++
+						label := fmt.Sprintf("hijack client: create with annotations#%d slots=%v paused=%v, then update to slots=%v paused=%v", ai, s1, p1, s2, p2)
+						badH := func(rule, f string, a ...interface{}) {
+							rep.Violation("C19", rule, label+": "+fmt.Sprintf(f, a...), func() interface{} {
+								return map[string]interface{}{"kind": "c19-hijack-edit", "annotations": am, "slots1": s1, "slots2": s2, "paused1": p1, "paused2": p2}
+							})
+						}
+						h := sha256.Sum256([]byte(label))
+						var k [16]byte
+						copy(k[:], h[:16])
+						rep.Count(k, true, "")
+						x := c19Base()
+						x.Annotations = copyMap(am)
+						helper.SetDeleteSlots(x, sets.NewInt32(s1...))
+						helper.SetPausedReconcile(x, p1)
+						cli := hc.AppsV1().StatefulSets(x.Namespace)
+						if _, err := cli.Create(ctx, x.DeepCopy(), metav1.CreateOptions{}); err != nil {
+							badH("hijack-create-error", "Create failed: %v", err)
+							continue
+						}
+						got, err := cli.Get(ctx, x.Name, metav1.GetOptions{})
+						if err != nil {
+							badH("hijack-get-error", "Get failed: %v", err)
+						} else {
+							if !eq(helper.GetDeleteSlots(got), s1) || helper.GetPausedReconcile(got) != p1 || others(got.Annotations) != others(x.Annotations) {
+								badH("hijack-annotations-lossy", "read back annotations %v, wrote %v", got.Annotations, x.Annotations)
+							}
+							y := got.DeepCopy()
+							helper.SetDeleteSlots(y, sets.NewInt32(s2...))
+							helper.SetPausedReconcile(y, p2)
+							upd, err := cli.Update(ctx, y.DeepCopy(), metav1.UpdateOptions{})
+							if err != nil {
+								badH("hijack-update-error", "Update failed: %v", err)
+							} else {
+								again, _ := cli.Get(ctx, x.Name, metav1.GetOptions{})
+								stored, _ := pc.AppsV1().StatefulSets(x.Namespace).Get(ctx, x.Name, metav1.GetOptions{})
+								for _, o := range []metav1.Object{upd, again, stored} {
+									if o == nil || reflect.ValueOf(o).IsNil() {
+										badH("hijack-get-error", "object missing after Update")
+										continue
+									}
+									if !eq(helper.GetDeleteSlots(o), s2) || helper.GetPausedReconcile(o) != p2 || others(o.GetAnnotations()) != others(y.Annotations) {
+										badH("hijack-annotations-lossy", "after the update annotations read %v, wrote %v", o.GetAnnotations(), y.Annotations)
+									}
+									if _, has := o.GetAnnotations()["delete-slots"]; len(s2) == 0 && has {
+										badH("slots-empty-keeps-key", "an empty slot set written through the client leaves the annotation in place: %q", o.GetAnnotations()["delete-slots"])
+									}
+								}
+							}
+						}
+						pc.AppsV1().StatefulSets(x.Namespace).Delete(ctx, x.Name, metav1.DeleteOptions{})
+						pc.ClearActions()
+					}
 				}
 			}
 		}
